@@ -446,8 +446,10 @@ pub fn run_program(me: u32, p: &Program, first: LH, is_writer: bool, rules: Rule
                     _ => R::Val(Arc::unwrap_or_clone(x)),
                 });
                 match r {
-                    R::Val(v) => {
+                    R::Val(mut v) => {
                         let (ok, _) = v.read();
+                        // whoever receives the value owns it exclusively: writing to it must not race
+                        let _ = v.flip();
                         let id = v.id;
                         if ok {
                             suspend(|| RECEIVED.with(|r| r.borrow_mut().push((me, id))));
